@@ -313,7 +313,7 @@ func classify(p cfgPath, v interface{}, ids map[string][]string) (f field, ok bo
 		if sizeKeys[g] {
 			f.Kind = "size"
 			f.Values = []mutValue{{Class: "-1", Value: -1}, {Class: "1", Value: "1B"}, {Class: "large", Value: "1MB"},
-				{Class: "bound", Value: 2147483647}, {Class: "bound+1", Value: 2147483648}, missing}
+				{Class: "bound", Value: 2147483647}, {Class: "bound+1", Value: 2147483648}, {Class: "round+", Value: "2GB"}, missing}
 			if t != 0 {
 				f.Values = append(f.Values, mutValue{Class: "0", Value: 0})
 			}
@@ -346,7 +346,8 @@ func classify(p cfgPath, v interface{}, ids map[string][]string) (f field, ok bo
 			}
 			if g == "dns.tcp_idle_timeout" {
 				// dnsserver.MaxTCPIdleTimeout = 65535 * 100ms (RFC 7828).
-				f.Values = append(f.Values, mutValue{Class: "bound", Value: "6553500ms"}, mutValue{Class: "bound+1", Value: "6553501ms"})
+				f.Values = append(f.Values, mutValue{Class: "bound", Value: "6553500ms"}, mutValue{Class: "bound+1", Value: "6553501ms"},
+					mutValue{Class: "bound-spelled", Value: "1h49m13.5s"}, mutValue{Class: "round+", Value: "1h50m"})
 			}
 			return f, true
 		case reSize.MatchString(t):
@@ -354,7 +355,10 @@ func classify(p cfgPath, v interface{}, ids map[string][]string) (f field, ok bo
 			f.Values = []mutValue{{Class: "0", Value: 0}, {Class: "-1", Value: -1}, {Class: "1", Value: "1B"},
 				{Class: "large", Value: largeSize}, missing}
 			if g == "dns.max_udp_response_size" {
-				f.Values = append(f.Values, mutValue{Class: "bound", Value: "65535B"}, mutValue{Class: "bound+1", Value: "65536B"})
+				// dns.MaxMsgSize = 65535; 64KB = 65536 B is the round value just
+				// above it.  4KB is a typical EDNS buffer size.
+				f.Values = append(f.Values, mutValue{Class: "bound", Value: "65535B"}, mutValue{Class: "bound+1", Value: "65536B"},
+					mutValue{Class: "round+", Value: "64KB"}, mutValue{Class: "4KB", Value: "4KB"}, mutValue{Class: "bound-1", Value: "65534B"})
 			}
 			return f, true
 		}
@@ -516,4 +520,36 @@ func constraintCases(fields []field) (out [][]mutation) {
 		}
 	}
 	return out
+}
+
+// documentedBound lists the properties that have an upper bound stated in the
+// documentation or implied by the type of the quantity (address-family prefix
+// length, 16-bit port, dns.MaxMsgSize, RFC 7828 idle timeout, 32-bit socket
+// buffer size): the bound itself must be accepted, anything beyond rejected.
+func documentedBound(p cfgPath) bool {
+	g := p.generic()
+	switch {
+	case g == "ratelimit.ipv4.subnet_key_len", g == "ratelimit.ipv6.subnet_key_len",
+		g == "dns.tcp_idle_timeout", g == "dns.max_udp_response_size",
+		g == "network.so_sndbuf", g == "network.so_rcvbuf":
+		return true
+	}
+	return strings.HasSuffix(p.lastKey(), "_port")
+}
+
+var reSizeValue = regexp.MustCompile(`^(\d+)\s*(B|KB|MB|GB|TB)?$`)
+
+// sizeBytes interprets a size scalar as written in the YAML file.
+func sizeBytes(v interface{}) (n int64, ok bool) {
+	m := reSizeValue.FindStringSubmatch(strings.TrimSpace(fmt.Sprint(v)))
+	if m == nil {
+		return 0, false
+	}
+	x, err := strconv.ParseInt(m[1], 10, 64)
+	if err != nil {
+		return 0, false
+	}
+	mult := map[string]int64{"": 1, "B": 1, "KB": 1 << 10, "MB": 1 << 20, "GB": 1 << 30, "TB": 1 << 40}
+	x *= mult[m[2]]
+	return x, true
 }
